@@ -379,9 +379,10 @@ theorem timely_step (p : Peer) (e : Ev) : Timely (step p e) := by
   | est c => exact (tick_post _ 0).2
   | loss k => exact (tick_post _ 0).2
   | goto n ad => exact (tick_post _ 0).2
-  | ann f k v noLL n => exact (tick_post _ 0).2
+  | ann f k v noLL n rj => exact (tick_post _ 0).2
   | wd f k => exact (tick_post _ 0).2
   | eor f => exact (tick_post _ 0).2
+  | del => exact (tick_post _ 0).2
 
 theorem timely_run (es : List Ev) : ∀ p : Peer, Timely p → Timely (run p es) := by
   induction es with
@@ -490,8 +491,8 @@ theorem nr_stepRaw (p : Peer) (e : Ev) (he : NoGraceful e) (h : NotRestarting p)
       rw [onStateChange_down p n false ad hest hn]
       simp only [h', Bool.false_and, Bool.false_eq_true, if_false]
       exact h
-  | ann f k v noLL n =>
-    show NotRestarting (onAnnounce p f k v noLL n)
+  | ann f k v noLL n rj =>
+    show NotRestarting (onAnnounce p f k v noLL n rj)
     unfold onAnnounce
     split <;> exact h
   | wd f k =>
@@ -508,6 +509,7 @@ theorem nr_stepRaw (p : Peer) (e : Ev) (he : NoGraceful e) (h : NotRestarting p)
       show (eorPeer (eorLocal p (markEOR p f))).peerRestarting = false
       simp only [eorPeer, h1, Bool.false_eq_true, if_false]
   | tick d => exact nr_advanceTo _ p _ h
+  | del => rfl
 
 theorem nr_step (p : Peer) (e : Ev) (he : NoGraceful e) (h : NotRestarting p) : NotRestarting (step p e) := by
   cases e with
@@ -515,9 +517,10 @@ theorem nr_step (p : Peer) (e : Ev) (he : NoGraceful e) (h : NotRestarting p) : 
   | est c => exact nr_advanceTo _ _ _ (nr_stepRaw p _ he h)
   | loss k => exact nr_advanceTo _ _ _ (nr_stepRaw p _ he h)
   | goto n ad => exact nr_advanceTo _ _ _ (nr_stepRaw p _ he h)
-  | ann f k v noLL n => exact nr_advanceTo _ _ _ (nr_stepRaw p _ he h)
+  | ann f k v noLL n rj => exact nr_advanceTo _ _ _ (nr_stepRaw p _ he h)
   | wd f k => exact nr_advanceTo _ _ _ (nr_stepRaw p _ he h)
   | eor f => exact nr_advanceTo _ _ _ (nr_stepRaw p _ he h)
+  | del => exact nr_advanceTo _ _ _ (nr_stepRaw p _ he h)
 
 theorem nr_run (es : List Ev) : ∀ p : Peer, (∀ e ∈ es, NoGraceful e) → NotRestarting p → NotRestarting (run p es) := by
   induction es with
